@@ -17,6 +17,8 @@ import (
 // C07 — scalar encodings are canonical 32-byte big-endian; decoding rejects everything else.
 
 type c07Case struct {
+	// Conc != 0: a concurrent batch (8 goroutines on objects they own) derived from this seed; other fields unused.
+	Conc uint64 `json:"concurrent_seed,omitempty"`
 	Kind  string `json:"kind"` // decode | encode | hex
 	In    string `json:"in"`   // decode: input bytes (hex); encode: canonical value (hex); hex: literal string
 	Nil   bool   `json:"nil,omitempty"`
@@ -42,6 +44,8 @@ func init() {
 }
 
 func c07Generate(c *mon.Ctx) {
+	concBatches(c, c.N(6, 300), func(seed uint64) any { return &c07Case{Conc: seed} })
+
 	n := oracle.N
 
 	for l := 0; l <= 100; l++ {
@@ -102,6 +106,11 @@ func c07State(c *mon.Ctx) *c07Errs {
 
 func c07Run(c *mon.Ctx, csAny any) {
 	cs := csAny.(*c07Case)
+
+	if cs.Conc != 0 {
+		c07RunConc(c, cs.Conc)
+		return
+	}
 	n := oracle.N
 
 	switch cs.Kind {
